@@ -55,7 +55,10 @@ def postprocess(src, dst):
             cid = v.get("cid", name) if v.get("cid") else name
             cids[name] = cid
             if v.get("welcome"):
-                log.append({"op": "open", "c": cid, "inv": v.get("open_inv", 0), "ret": v.get("open_ret", 0)})
+                op = {"op": "open", "c": cid, "inv": v.get("open_inv", 0), "ret": v.get("open_ret", 0)}
+                if v.get("switched") is not None:
+                    op["switched"] = v["switched"]      # the client library's handshake switched the protocol version
+                log.append(op)
             closed = False
             for r in v["log"]:
                 r = dict(r)
